@@ -73,7 +73,7 @@ func (v *Vue) interpolateToWriter(ctx VueContext, w io.Writer, input string) err
 		var err error
 
 		// Try unified pipe/expr evaluation (handles both filters and expressions)
-		if strings.Contains(expr, "|") || helpers.IsFunctionCall(expr) || helpers.IsComplexExpr(expr) {
+		if strings.Contains(expr, "|") || helpers.IsFunctionCall(expr) || helpers.IsComplexExpr(expr) || !helpers.IsVariablePath(expr) {
 			pipe := parsePipeExpr(expr)
 			val, err = v.evalPipe(ctx, pipe)
 			if err != nil {
